@@ -7,7 +7,7 @@ D=$(mktemp -d /tmp/mut.XXXXXX)
 mkdir -p "$D/src" && cp -r /repo/src/xdist "$D/src/" 
 ( cd "$D" && patch -p1 -s < "$P" ) || { echo "PATCH FAILED"; rm -rf "$D"; exit 2; }
 for c in "$@"; do
-  out=$(cd /verif && VERIF_REPO="$D" ./check "$c" --tier "$TIER" --no-proofs 2>&1 | grep -E "VIOLATION" | head -3)
+  out=$(cd /verif && VERIF_EVIDENCE_DIR="$D/evidence" VERIF_REPO="$D" ./check "$c" --tier "$TIER" --no-proofs 2>&1 | grep -E "VIOLATION" | head -3)
   if echo "$out" | grep -q VIOLATION; then
      f=$(echo "$out" | grep VIOLATION | head -1 | sed 's/.*replay=\([^ ]*\).*/\1/')
      sig=$(python3 -c "
